@@ -19,13 +19,14 @@
   Also: `NewEntityWith`, `Builder.New` with a target, batch creation, `Assign`, value writes
   (`Set`, pointer writes), resources and listeners.
   `Relations.Set`, `Batch.SetRelation` / `Relations.SetBatch`.
-  and `Batch.RemoveEntities`. Not yet in the closure (covered by the correspondence only):
-  `LoadEntities`.
+  `Batch.RemoveEntities` and `LoadEntities` — i.e. every state-changing operation of the model's
+  API (`DumpEntities` and the read accessors change only the lock state or nothing).
 -/
 import ArcheProofs.Lemmas.GOps2
 import ArcheProofs.Lemmas.SetRel
 import ArcheProofs.Props.C08_SetRel
 import ArcheProofs.Props.C08_Remove
+import ArcheProofs.Lemmas.Load
 
 namespace Arche.Props.C01.Reach
 open Arche Arche.World Arche.Arr Arche.Storage Arche.IndexInv Arche.SameRows Arche.Graph Arche.Closed Arche.TInv Arche.KInv Arche.Move Arche.Remove Arche.Cov Arche.Cache Arche.SInv Arche.DInv Arche.Create Arche.Frames Arche.BatchOps Arche.GInv Arche.GOps Arche.GVals Arche.GOps2 Arche.SetRel Arche.BatchLoop
@@ -186,6 +187,10 @@ inductive Reach : World → List Entity → List Entity → Prop
   | removeEntities {w is lv} (h : Reach w is lv) (f : Filter) (n : Nat) (ts : List Nat) (hg : w.getTables f = some ts)
       (hok : (w.removeEntities f).out = .ok n) :
       Reach (w.removeEntities f).w is ((BatchRemove.selEnts w ts).foldl List.erase lv)
+  /-- `World.LoadEntities` of a dump taken from any reachable world, into a world whose pool was
+      never used since creation / reset; the ghost history becomes the source's -/
+  | load {w is lv src is' lv'} (h : Reach w is lv) (hs : Reach src is' lv') (hr : Arche.Props.C17.Receptive w) (d : Dump)
+      (hd : src.dump.out = .ok d) : Reach (w.load d).w is' lv'
   /-- `World.Set`, a write through the `Get` pointer or through `Query.Get` -/
   | write {w is lv} (h : Reach w is lv) (t r : Nat) (id : CompId) (v : Val) : Reach (w.setCell t r id v) is lv
   /-- resources and listeners: fields the invariants do not read -/
@@ -229,6 +234,7 @@ theorem reach_ginv {w : World} {is lv : List Entity} (h : Reach w is lv) : GInv 
     obtain ⟨ts', hg', G', _⟩ := BatchRemove.ginv_removeEntities _ _ _ ih f n hok
     rw [hg] at hg'; simp only [Option.some.injEq] at hg'
     rw [hg']; exact G'
+  | load h hs hr d hd ih ihs => exact (Arche.Load.ginv_load _ _ _ ih hr d _ _ (Arche.Load.dump_wf _ _ _ ihs d hd)).2
   | write h t r id v ih => exact ginv_setCell _ _ _ ih t r id v
   | @other w0 _ _ h res rc l ih => exact ginv_congr (w := w0) rfl rfl rfl rfl rfl rfl rfl rfl rfl ih
 
